@@ -1,6 +1,10 @@
 //! Correspondence harness: runs the real skim code in-process.
 //! stdin: one request per line `<prop>\t<case>`; stdout: one answer line per request.
 mod c01;
+mod c09;
+mod c10;
+mod c16;
+mod canvas;
 mod c15;
 mod c18;
 mod session;
@@ -12,6 +16,9 @@ use std::panic;
 fn dispatch(prop: &str, case: &str) -> String {
     match prop {
         "C01" | "C14" | "C05" | "C10S" => c01::run(case),
+        "C09" => c09::run(case),
+        "C10" => c10::run(case),
+        "C16" => c16::run(case),
         "C15" => c15::run(case),
         "C18" => c18::run(case),
         _ => "error:unknown-property".into(),
